@@ -15,7 +15,8 @@ warnings.filterwarnings("ignore")
 
 THEOREMS = ["Yaw.C07.reusable_iff", "Yaw.C07.fresh_inv", "Yaw.C07.step_inv", "Yaw.C07.marker_inv",
             "Yaw.C07.build_post", "Yaw.C07.history_free", "Yaw.C07.glue_pinned"]
-RULE = ("random histories (length 2..10 quick, ..30 thorough) of build_trees (binned with 3 edge sets incl. equal bin "
+RULE = ("random histories (length 2..10 quick, ..30 thorough) of build_trees (binned with 5 edge sets incl. equal bin "
+        "count, edges that differ by one ulp, "
         "count / equal edges with the other closed side, unbinned, forced or not), catalog re-opening (all handles on a "
         "cache stay alive and every later operation uses one of them at random), autocorrelations "
         "and crosscorrelations (binned and unbinned roles of the same catalog) on three catalogs sharing centres, "
@@ -24,7 +25,10 @@ RULE = ("random histories (length 2..10 quick, ..30 thorough) of build_trees (bi
         "(==) the measurement on freshly created caches. non-trivial: the history contains a build with a binning that "
         "differs from the final one; distinct by op sequence")
 
-EDGE_SETS = [[0.1, 0.3, 0.5, 0.9], [0.1, 0.4, 0.6, 0.9], [0.1, 0.5, 0.9], [0.2, 0.3, 0.5, 0.7, 0.9]]
+EDGE_SETS = [[0.1, 0.3, 0.5, 0.9], [0.1, 0.4, 0.6, 0.9], [0.1, 0.5, 0.9], [0.2, 0.3, 0.5, 0.7, 0.9],
+             # the first set with inner edges one ulp higher (what np.linspace / a text round trip gives instead of the
+             # literals): a different binning - objects exactly on the shifted edge change bins
+             [0.1, float(np.nextafter(0.3, 1.0)), float(np.nextafter(0.5, 1.0)), 0.9]]
 
 
 def enc_bin(b):
@@ -133,9 +137,15 @@ def run(prop, tier, seed, replay):
                     b2 = b1
                     while b2 == b1:
                         b2 = (rng.choice(EDGE_SETS), rng.choice(["left", "right"]))
+                    if hi % 8 == 0:       # the pair of binnings that differ by one ulp in their inner edges, same closed side
+                        side = rng.choice(["left", "right"])
+                        b1, b2 = (EDGE_SETS[4], side), (EDGE_SETS[0], side)
                     m = rng.choice(["auto", "cross"])
                     script = [((m, b1), 0), (("reopen", "D"), 0), (("reopen", "R"), 0), (("reopen", "U"), 0),
                               ((m, b2), 1), ((m, b1), 0)]
+                    if hi % 8 == 0:
+                        # the last measurement must not find trees of the nearly equal binning acceptable
+                        script = [((m, b2), 0), ((m, b1), 0)]
                     length = len(script)
                 ops, model_ops = [], {k: [] for k in cats}
                 states = {k: [] for k in cats}
